@@ -250,8 +250,74 @@ func hopGRPCStreamInterceptors(ctx context.Context) (context.Context, error) {
 	return got, nil
 }
 
-var hopNames = []string{"http", "http-middleware", "grpc", "grpc-unary-interceptors", "grpc-stream-interceptors"}
-var hops = []hop{hopHTTP, hopHTTPMiddleware, hopGRPC, hopGRPCInterceptors, hopGRPCStreamInterceptors}
+var hopNames = []string{"http", "http-middleware", "grpc", "grpc-unary-interceptors", "grpc-stream-interceptors",
+	"grpc-over-same-id", "grpc-over-empty-value", "grpc-over-other-id", "grpc-over-two-values", "grpc-over-unrelated-keys",
+	"http-over-same-id", "http-over-empty-value", "http-over-other-id", "http-over-two-values", "http-over-unrelated-keys"}
+
+// hops over a carrier that already holds something under the org-id key (a proxy that forwarded headers, a context
+// that went through an earlier injection): the same identifier, an empty value, a different one, several values, or
+// only unrelated keys. Such a hop may be refused; if it goes through, the identifier must arrive unchanged.
+func preexisting(id string, variant int) []string {
+	switch variant % 5 {
+	case 0:
+		return []string{id}
+	case 1:
+		return []string{""}
+	case 2:
+		return []string{id + "x"}
+	case 3:
+		return []string{id, id}
+	}
+	return nil
+}
+
+func hopGRPCPre(variant int) hop {
+	return func(ctx context.Context) (context.Context, error) {
+		id, err := user.ExtractOrgID(ctx)
+		if err != nil {
+			return nil, err
+		}
+		md := metadata.MD{"x-unrelated": {"1"}}
+		if v := preexisting(id, variant); v != nil {
+			md["x-scope-orgid"] = v
+		}
+		octx, err := user.InjectIntoGRPCRequest(metadata.NewOutgoingContext(ctx, md))
+		if err != nil {
+			return nil, err
+		}
+		_, nctx, err := user.ExtractFromGRPCRequest(outToIn(octx))
+		if err != nil {
+			return nil, err
+		}
+		return nctx, nil
+	}
+}
+
+func hopHTTPPre(variant int) hop {
+	return func(ctx context.Context) (context.Context, error) {
+		id, err := user.ExtractOrgID(ctx)
+		if err != nil {
+			return nil, err
+		}
+		req := httptest.NewRequest("GET", "http://example/", nil)
+		req.Header.Set("X-Unrelated", "1")
+		for _, v := range preexisting(id, variant) {
+			req.Header.Add(user.OrgIDHeaderName, v)
+		}
+		if err := user.InjectOrgIDIntoHTTPRequest(ctx, req); err != nil {
+			return nil, err
+		}
+		_, nctx, err := user.ExtractOrgIDFromHTTPRequest(req)
+		if err != nil {
+			return nil, err
+		}
+		return nctx, nil
+	}
+}
+
+var hops = []hop{hopHTTP, hopHTTPMiddleware, hopGRPC, hopGRPCInterceptors, hopGRPCStreamInterceptors,
+	hopGRPCPre(0), hopGRPCPre(1), hopGRPCPre(2), hopGRPCPre(3), hopGRPCPre(4),
+	hopHTTPPre(0), hopHTTPPre(1), hopHTTPPre(2), hopHTTPPre(3), hopHTTPPre(4)}
 
 // real wire
 type wire struct {
